@@ -217,7 +217,27 @@ def run(ctx, crate):
     # ------------------------------------------------------------ R01.preorder
     pushes = [s for s in sites if s.path == "std::vec::Vec::<T, A>::push" and s.args and s.args[0] == matches]
     appends = [s for s in sites if s.path == "std::vec::Vec::<T, A>::append" and s.args and s.args[0] == matches]
-    other_mut = [s for s in sites if s.args and s.args[0] == matches and s not in pushes and s not in appends
+    # intermediate lists: a list created empty, filled only by appending recursive results and then appended as a whole, once and unconditionally
+    # (under the guard of its creation), to the result list (or to another such list) carries its content into the result in the same order
+    all_app = [s for s in sites if s.path == "std::vec::Vec::<T, A>::append" and len(s.args) == 2]
+    carriers = {}
+    changed_ = True
+    while changed_:
+        changed_ = False
+        for a in all_app:
+            tgt, src = a.args[0], a.args[1]
+            if (tgt == matches or tgt in carriers) and src not in carriers and src != matches and T.is_call(src, "new") and "Vec" in src[1] and src[3] and src[3][0] == w.path:
+                uses_ = [s for s in sites if s is not a and any(x == src for x in s.args)]
+                fills = [s for s in uses_ if s in all_app and s.args[0] == src]
+                cb = src[3][1]
+                # nothing else goes into the target between the first fill of the carrier and the carrier's own append (order is kept)
+                between = [x for x in all_app if x is not a and x.args[0] == tgt and any(w.reaches(f_.bb, x.bb) for f_ in fills) and w.reaches(x.bb, a.bb)]
+                if len(fills) == len(uses_) and not between and S.block_guard(w, a.bb) == S.block_guard(w, cb) and w.loops_of(a.bb) == w.loops_of(cb) and w.dominates(cb, a.bb):
+                    carriers[src] = a
+                    changed_ = True
+    carrier_appends = list(carriers.values())
+    appends += [s for s in all_app if s.args[0] in carriers and s not in carrier_appends]
+    other_mut = [s for s in sites if s.args and s.args[0] == matches and s not in pushes and s not in appends and s not in carrier_appends
                  and not s.path.endswith(("::len", "::iter", "::clone", "::is_empty"))]
     ok_push = False
     if len(pushes) == 1:
@@ -237,6 +257,7 @@ def run(ctx, crate):
         else:
             obs.append(Ob("R01.preorder", WALKER, "result of a recursive call appended once", False, site=r.where,
                           expected="matches.append(&mut walk(..)) and no other use", found="appends=%d uses=%d" % (len(ap), len(uses))))
+    appends = [a for a in appends if a not in carrier_appends]
     obs.append(Ob("R01.preorder", WALKER, "every recursive result is appended to the result list", flowing == len(rec) and len(appends) == len(rec),
                   expected="%d appends" % len(rec), found="%d appended, %d append sites" % (flowing, len(appends))))
     obs.append(Ob("R01.preorder", WALKER, "no other mutation of the result list", not other_mut, found=[s.path for s in other_mut] or "none"))
